@@ -82,8 +82,29 @@ func runC01Tamper(rc *RunCtx) {
 	ctx := namespace.ContextWithNamespace(context.Background(), ns)
 	rootKey, err := b.GenerateKey()
 	must(err)
+	// a quarter of the runs: the store was initialised by a release that wrote
+	// the legacy record format (keyring and root-key records carry version byte
+	// 1) and is then opened by the current code - through a fresh barrier
+	// (restart) or a keyring reload (standby). Everything the current code
+	// writes from then on must be in the current, key-bound format.
+	legacyInit := tp.Pick(4) == 3
+	rc.Cfg("legacy_initialised_store", legacyInit)
+	if legacyInit {
+		barrier.VerifSetVersionByte(b, barrier.AESGCMVersion1)
+	}
 	must(b.Initialize(ctx, rootKey, nil))
 	must(b.Unseal(ctx, rootKey))
+	if legacyInit {
+		if tp.Pick(2) == 0 {
+			must(b.Seal())
+			b = barrier.NewAESGCMBarrier(phys, ns)
+			must(b.Unseal(ctx, rootKey))
+		} else {
+			barrier.VerifSetVersionByte(b, barrier.AESGCMVersion2)
+			must(b.ReloadKeyring(ctx))
+		}
+		s.Probe("legacy_store_opened_by_current_code")
+	}
 
 	var written [][]byte // every plaintext ever written (confidentiality scan)
 	disk.OnWrite = append(disk.OnWrite, func(key string, val []byte, del bool) {
